@@ -732,15 +732,13 @@ let handle_sfault c =
   let ins = List.map (fun t -> match t with [k; v] -> (bytes_of_hex k, bytes_of_hex v) | _ -> failwith "ins") (get_all c "ins") in
   let nins = List.length ins in
   let free = String.concat "_" (get c "free") in
-  (* insert index during which ChunkCreator::create number j is called (nins = the final call) *)
-  let create_call j =
-    let rec go st i = function
-      | [] -> nins
-      | (k, v) :: rest ->
-        (match n_insert scfg st (n_of_int (List.length k + List.length v)) with
-         | Done st' -> if int_of_n st'.ns_creates > j then i else go st' (i + 1) rest
-         | _ -> i) in
-    go (n_new scfg) 0 ins in
+  (* the run of the sorter model over a creator that fails its call number j with the error e:
+     (index of the public call that ended the run — nins = the final call, outcome) *)
+  let create_call j (e : err) =
+    match fs_run scfg (cr_fail_at (n_of_int j) e) base_mf ins with
+    | (i, Done _) -> string_of_int (int_of_n i) ^ " ok"
+    | (i, Panic) -> string_of_int (int_of_n i) ^ " panic"
+    | (i, Fail e') -> string_of_int (int_of_n i) ^ " err_" ^ err_name e' in
   let merge_call j =
     let mf = mf_fail_at (n_of_int j) base_mf in
     let rec go st i = function
@@ -755,7 +753,8 @@ let handle_sfault c =
     | ["create"; j; variant; "="; at; res; "fired"; fired] ->
       let field = "create" ^ j in
       let cls = (match variant with "0" -> "io7" | "1" -> "version" | _ -> "codec") in
-      check_eq c field (at ^ " " ^ res) (string_of_int (create_call (int_of_string j)) ^ " err_" ^ cls);
+      let e = (match variant with "0" -> EIo (n_of_int 7) | "1" -> EInvalidVersion | _ -> EInvalidCodec) in
+      check_eq c field (at ^ " " ^ res) (create_call (int_of_string j) e);
       spec_ok c ("C12.surface." ^ field) (at = fired && res = "err_" ^ cls)
         (Printf.sprintf "creator failure %s during call %s surfaced as %s at call %s" cls fired res at)
     | ["merge"; j; _; "="; at; res; "fired"; _] ->
